@@ -32,8 +32,8 @@ for p in props:
         replay_cmd_template="./check --replay {path}",
         engine=meta.get("ENGINE", "E1"),
         level_claimed=dict(category=meta.get("LEVEL", "model_checking"),
-                           text=meta.get("LEVEL_TEXT", "bounded exhaustive explicit-state exploration of the real flox code against a NumPy/pandas reference model: every point of the stated finite space is executed and compared"),
-                           design_ref=meta.get("DESIGN_REF", f"DESIGN.md section 4, {pid}")),
+                           text=meta.get("LEVEL_TEXT", "bounded exhaustive explicit-state exploration of the real flox code against a reference model: every state of the stated finite space is executed and compared (no sampling). " + str(meta.get("RULE", ""))[:700]),
+                           design_ref=meta.get("DESIGN_REF", f"DESIGN.md section 3 (row {pid}), sections 1-2 for the explorer")),
         level_note=meta.get("LEVEL_NOTE", "; ".join(meta.get("ASSUMPTIONS", []))[:900]),
         technique=meta.get("TECHNIQUE", "explicit-state model checking of the implementation (exhaustive small-scope enumeration, reference-model oracle)"),
     ))
